@@ -3,6 +3,7 @@ import QuickAdd.Gen.Classes
 import QuickAdd.Gen.RegexTable
 import QuickAdd.Model.Codec
 import QuickAdd.Model.Search
+import QuickAdd.Model.NB
 /-! Line-protocol driver: one operation per input line, one answer line per operation.
     Texts travel as blank-separated decimal code points (`-` = empty text). -/
 open QuickAdd QuickAdd.Gen
@@ -89,6 +90,44 @@ def opNoMatch (args : List String) : String :=
   let (s, l) := noMatchSubject (parseCps args)
   cpsOut s ++ " ## " ++ "|".intercalate (l.map cpsOut)
 
+def parseDocs (s : String) : List (List String) :=
+  if s == "-" then [] else (s.splitOn ";").map fun d => if d == "_" || d == "" then [] else d.splitOn ","
+def parseLabels (s : String) : List Bool := if s == "-" then [] else (s.splitOn ",").map (· == "1")
+def nbErrName : NB.NBErr → String
+  | .indexError => "IndexError" | .valueError => "ValueError" | .zeroDivision => "ZeroDivisionError" | .mathDomain => "ValueError"
+def fmtForm (f : NB.LogForm) : String := ",".intercalate (f.map fun (c, a, b) => s!"{c}:{a}/{b}")
+def natsOut (l : List Nat) : String := ",".intercalate (l.map toString)
+
+/-- `nbfit <docs> <labels>` -/
+def opNbFit (args : List String) : String :=
+  match args with
+  | [d, l] =>
+    match NB.fit (parseDocs d) (parseLabels l) with
+    | .error e => "err " ++ nbErrName e
+    | .ok m => "ok " ++ "|".intercalate (m.vocab.map fun g => g.replace " " "+") ++ " " ++ natsOut m.neg ++ " " ++ natsOut m.pos ++ s!" {m.nNeg} {m.nPos}"
+  | _ => "bad-op"
+
+/-- `nbscore <docs> <labels> <doc> <covered> <textLen> <prodLen>` -/
+def opNbScore (args : List String) : String :=
+  match args with
+  | [d, l, q, cov, tl, pl] =>
+    match NB.fit (parseDocs d) (parseLabels l), cov.toNat?, tl.toNat?, pl.toNat? with
+    | .error e, _, _, _ => "err " ++ nbErrName e
+    | .ok m, some cov, some tl, some pl =>
+      let doc := (parseDocs q).headD []
+      match NB.joint m doc, NB.score m doc cov tl, NB.scoreFinal m doc pl tl with
+      | .ok (n, p), .ok s, .ok f => "ok " ++ fmtForm n ++ " " ++ fmtForm p ++ " " ++ fmtForm s ++ " " ++ fmtForm f
+      | .error e, _, _ => "err " ++ nbErrName e
+      | _, .error e, _ => "err " ++ nbErrName e
+      | _, _, .error e => "err " ++ nbErrName e
+    | _, _, _, _ => "bad-op"
+  | _ => "bad-op"
+
+def opPrefixes (args : List String) : String :=
+  match args with
+  | [t, l] => ";".intercalate ((NB.prefixSamples ((parseDocs t).headD []) (l == "1")).map fun (x, y) => ",".intercalate x ++ (if y then ":1" else ":0"))
+  | _ => "bad-op"
+
 def handle (line : String) : String :=
   match (line.trimAscii.toString.splitOn " ").filter (· ≠ "") with
   | "rx" :: args => opRx args
@@ -100,6 +139,9 @@ def handle (line : String) : String :=
   | "stack" :: args => opStack args
   | "parse" :: args => opParse args
   | "nomatch" :: args => opNoMatch args
+  | "nbfit" :: args => opNbFit args
+  | "nbscore" :: args => opNbScore args
+  | "prefixes" :: args => opPrefixes args
   | _ => "bad-op"
 
 partial def loop (h : IO.FS.Stream) (out : IO.FS.Stream) : IO Unit := do
